@@ -453,6 +453,52 @@ Section Binding.
     | o :: r => match step st o with Ok st' => run st' r | Err e => Err e end
     end.
 
+  (* ---- _get_reference_activated_flow_instance ----
+     `activate f(..)` of a flow that already has activated instances: is there a reference
+     instance "with exactly the same parameters"?  Transcription of the per-parameter test
+
+        val = activated_flow.arguments[arg.name]                         (KeyError if absent)
+        matched  = arg.name in event.arguments and val == event.arguments[arg.name]
+        matched |= f"${idx}" in event.arguments and val == event.arguments[f"${idx}"]
+        matched |= (arg.name not in event.arguments and f"${idx}" not in event.arguments
+                    and arg.default_value_expr is not None
+                    and val == eval_expression(arg.default_value_expr, {}))
+        if not matched: matching_parameters = False; break
+
+     [veq] is Python's `==` on values (True == 1 == 1.0, dicts unordered, ...). *)
+  Variable veq : value -> value -> bool.
+
+  Definition param_matched (ev : ctx) (val : value) (idx : nat) (p : param) : bool :=
+    (match aget (p_name p) ev with Some v => veq val v | None => false end)
+    || (match aget (pos_key idx) ev with Some v => veq val v | None => false end)
+    || (negb (ahas (p_name p) ev) && negb (ahas (pos_key idx) ev)
+        && match p_default p with Some e => veq val (eval [] e) | None => false end).
+
+  (* None = KeyError *)
+  Fixpoint params_match (ps : list param) (idx : nat) (ev act : ctx) : option bool :=
+    match ps with
+    | [] => Some true
+    | p :: r =>
+        match aget (p_name p) act with
+        | None => None
+        | Some val => if param_matched ev val idx p then params_match r (S idx) ev act else Some false
+        end
+    end.
+
+  (* state.flow_id_states[flow_id] in order: is the instance a reference instance
+     (activated > 0, parent alive and of another flow), and its `arguments` *)
+  Fixpoint find_reference (ps : list param) (ev : ctx) (insts : list (bool * ctx)) (i : nat) : option (option nat) :=
+    match insts with
+    | [] => Some None
+    | (is_ref, act) :: r =>
+        if negb is_ref then find_reference ps ev r (S i) else
+        match params_match ps 0 ev act with
+        | None => None
+        | Some true => Some (Some i)
+        | Some false => find_reference ps ev r (S i)
+        end
+    end.
+
   Definition is_shared_start (o : op) : bool :=
     match o with OStartShared _ _ _ => true | _ => false end.
 End Binding.
